@@ -28,7 +28,12 @@ def c04Kind (s : String) : Except String Kind :=
 
 def c04Field (j : Json) : Except String FieldD := do
   match (← j.getArr?).toList with
-  | [Json.str n, Json.str k, Json.bool rep, Json.bool req] => pure ⟨n.toList, ← c04Kind k, rep, req⟩
+  | [Json.str n, Json.str k, Json.bool rep, Json.bool req] => pure ⟨n.toList, ← c04Kind k, rep, req, .implicit⟩
+  | [Json.str n, Json.str k, Json.bool rep, Json.bool req, Json.str pr] =>
+    let pres ← match pr with
+      | "implicit" => pure Presence.implicit | "optional" => pure Presence.optional | "oneof" => pure Presence.oneofMember
+      | _ => throw s!"bad presence {pr}"
+    pure ⟨n.toList, ← c04Kind k, rep, req, pres⟩
   | _ => throw "bad field"
 
 def c04Method (j : Json) : Except String MethodD := do
